@@ -59,11 +59,12 @@ K3 == P("pair", <<Ref(K1), P0("unit")>>, <<>>)                \* a type that ref
 K4 == P("PUSH", <<Ref(K1), Ref(K2)>>, <<>>)                   \* an instruction with references in type and data position
 K5 == Sq(<<P0("DROP"), Ref(K4)>>)                             \* a code block: K5 -> K4 -> K1, K2
 K6 == P("Pair", <<Ref(K2), IntE(7)>>, <<>>)                    \* a value that references K2
+K7 == Sq(<<>>)                                                 \* the empty sequence: a registered expression that is "empty"
 Ghost == P0("nat")                                            \* never registered: its hash is unknown
 
 SubsetsUpTo(S, b) == {R \in SUBSET S : Cardinality(R) <= b}
 ScriptRegs == SubsetsUpTo({K1, K2, K3, K4, K5}, MaxReg)
-DataRegs   == SubsetsUpTo({K1, K2, K6}, MaxReg)
+DataRegs   == SubsetsUpTo({K1, K2, K6, K7}, MaxReg)
 
 PushPlain == P("PUSH", <<P0("int"), IntE(12345)>>, <<>>)
 ParamAlts == {P0("unit"), Ref(K1), P("pair", <<Ref(K1), P0("unit")>>, <<"%a">>), Ref(K3)}
@@ -83,7 +84,7 @@ CodeAlts == {Sq(<<P0("DROP"), ins, P("NIL", <<P0("operation")>>, <<>>), P0("PAIR
 Scripts == {Sq(<<P("parameter", <<pt>>, <<>>), P("storage", <<st>>, <<>>), P("code", <<cd>>, <<>>)>>) :
               pt \in ParamAlts, st \in StoreAlts, cd \in CodeAlts}
 
-A0 == {IntE(1), Ref(K2), Ref(K6), Ref(Ghost)}
+A0 == {IntE(1), Ref(K2), Ref(K6), Ref(K7), Ref(Ghost)}
 A1 == A0 \cup {P("Pair", <<x, y>>, <<>>) : x \in A0, y \in A0}
          \cup {Sq(<<x, y>>) : x \in A0, y \in A0}
          \cup {P("Some", <<x>>, <<"%s">>) : x \in A0}
